@@ -42,6 +42,14 @@ def build(desc):
         mp = dict(mp, handicaps="lines", n_runners=(2, 4))
     case, snaps = simgen.gen_case(desc["seed"], desc["idx"], market_params=mp, script_params=sp, n_strategies=(1, 1) if lone else (1, 3), salt=6)
     case["config"] = {"simulated_strategy_isolation": rng.random() < 0.7}
+    if desc["idx"] % 5 == 2:
+        # explicit transactions executed more than once / kept open across updates (a request must still reach the exchange once)
+        simgen.usage_variants(case, snaps, simgen.mk_rng(desc["seed"], desc["idx"], 606), p_batch=0.7, p_hold=0.5)
+    if desc["idx"] % 11 == 7 and not lone:
+        # the same file delivered by two streams of one event group (a second strategy with its own listener filter): every traded
+        # amount still exists once
+        case["event_processing"] = True
+        case["strategies"].append({"name": "W", "actions": [], "listener_kwargs": {"seconds_to_start": 36000}})
     if desc["idx"] % 4 == 1 and not lone:
         # a strategy's orders go through two or three clients with different settings: the traded volume is still shared
         ncl = rng.choice((2, 3))
@@ -53,10 +61,44 @@ def build(desc):
     return case, snaps
 
 
+def two_stream_bound(tr, out, snaps):
+    """The file reaches the framework through two streams (every update is processed twice): per resting order the passive fills are
+    still bounded by what traded in the FILE after it arrived, at prices that can match it, halved, less the queue it joined."""
+    deltas = {m: O.traded_deltas(sn) for m, sn in snaps.items()}
+    passive = {}
+    for f in tr.fragments:
+        if f["caller"] == "_calculate_process_traded":
+            passive[f["o"]] = passive.get(f["o"], 0.0) + f["frag"][2]
+    for p in tr.placements:
+        if p["otype"] != "LIMIT" or p.get("resp_status") != "SUCCESS" or p["o"] not in tr.orders:
+            continue
+        o = tr.orders[p["o"]]
+        m, sel = o.market_id, (o.selection_id, o.handicap)
+        pt = tr.ticks[p["tick"]]["pt"] if 0 <= p["tick"] < len(tr.ticks) else None
+        if pt is None or m not in snaps:
+            continue
+        side, price = p["side"], p["price"]
+        queue = next((sz for pr, sz in (p["atl"] if side == "BACK" else p["atb"]) or () if pr == price), 0.0)
+        elig = 0.0
+        for i, sn in enumerate(snaps[m]):
+            if sn["pt"] >= pt:  # the update at which it arrived counts too (its trades are applied after the arrival)
+                for q, v in deltas[m][i].get(sel, {}).items():
+                    if (q >= price - 1e-9) if side == "BACK" else (q <= price + 1e-9):
+                        elig += v
+        out.rule("aggregate")
+        got = passive.get(p["o"], 0.0)
+        if got > max(0.0, elig / 2.0) + 0.011:
+            out.v("fill-exceeds-eligible-volume-after-queue", {"isolation": True, "lone": True, "side": side, "two_streams": True}, order=p["o"], filled=got, eligible_traded=elig, queue_at_arrival=queue)
+    out.c("two_stream_cases")
+
+
 def run(desc):
     case, snaps = build(desc)
     tr = simrun.run_case(case)
     out = O.Out(PROPERTY)
     O.abort_violation(tr, out)
+    if any(s_["name"] == "W" for s_ in case["strategies"]):
+        two_stream_bound(tr, out, snaps)
+        return out.result()
     O.c06_passive(tr, out, snaps, case)
     return out.result(sample=_sim.sample_of(case, tr) if desc["idx"] < 2 else None)
